@@ -145,6 +145,12 @@ class RecomputingDict(MutableMapping[RuleKey, AbstractStrategy]):
     def __contains__(self, key: object) -> bool:
         return self._flatten(cast(RuleKey, key)) in self.rules
 
+    def __eq__(self, other: object) -> bool:
+        # The strategies are a function of the rules: no need to recompute them.
+        if not isinstance(other, RecomputingDict):
+            return NotImplemented
+        return self.only_equiv == other.only_equiv and self.rules == other.rules
+
 
 class RuleDBForgetStrategy(RuleDBBase):
     def __init__(self) -> None:
